@@ -34,6 +34,7 @@ func main() {
 		}
 		return b
 	}
+	nSuites := len(otp.ListSuites())
 	var bad atomic.Int64
 	var firstBad atomic.Value
 	fail := func(f string, a ...any) {
@@ -116,10 +117,40 @@ func main() {
 					if ok, err := otp.ValidateOCRA(sec, s, longCfg, otp.OCRAInput{Counter: in.Counter, Challenge: in.Challenge, Password: in.Password, SessionInfo: in.Session, Timestamp: in.Timestamp}); !ok || err != nil {
 						fail("ValidateOCRA rejects the generated code")
 					}
-					if len(otp.ListSuites()) == 0 || !otp.IsKnownSuite(short.Text) {
+					if len(otp.ListSuites()) != nSuites || !otp.IsKnownSuite(short.Text) {
 						fail("suite registry changed")
 					}
-					calls.Add(7)
+					// the rest of the public API, so that lazily built or cached state anywhere is exercised concurrently
+					pn := fmt.Sprintf("OCRA-1:HOTP-SHA256-7:QN10-T%dS", 1+(w+i)%59)
+					if ps, err := otp.NewRawSuite(pn); err != nil || ps.String() != pn || ps.Config().TimeStep != 1+(w+i)%59 || ps.Config().Digits != 7 {
+						fail("NewRawSuite(%s) wrong under concurrency", pn)
+					}
+					if ps, err := otp.NewRawSuite(strings.ToLower(pn)); err == nil && ps.String() != strings.ToLower(pn) {
+						fail("NewRawSuite(lower-case) reports another name under concurrency: %s", ps.String())
+					}
+					if _, err := otp.NewRawSuite("OCRA-2:HOTP-SHA1-6:QN08"); err == nil {
+						fail("malformed suite accepted")
+					}
+					sp := []string{sec, strings.ToLower(sec), " " + sec + "\n", sec + "======"}[(w+i)%4]
+					if b, err := otp.DecodeSecret(sp); (w+i)%4 != 3 && (err != nil || string(b) != string(key)) {
+						fail("DecodeSecret(%q) wrong under concurrency", sp)
+					}
+					if rs, err := otp.RandomSecret(otp.Algorithm(a)); err != nil || len(rs) != []int{32, 52, 103}[a] {
+						fail("RandomSecret wrong under concurrency: %q %v", rs, err)
+					}
+					up := otp.URLParam{Issuer: fmt.Sprintf("Iss %d", w), AccountName: fmt.Sprintf("acc+%d@x", i), Secret: sec, Digits: otp.Digits(d), Algorithm: otp.Algorithm(a), Period: uint(30 + i%3)}
+					if u, err := otp.GenerateTOTPURL(up); err != nil {
+						fail("GenerateTOTPURL: %v", err)
+					} else if back, err := otp.ParseOTPAuthURL(u); err != nil || back.Issuer != up.Issuer || back.AccountName != up.AccountName || back.Secret != sec || back.Period != up.Period || back.Digits != up.Digits {
+						fail("URL round trip wrong under concurrency: %+v %v", back, err)
+					}
+					if b, err := otp.ParseDecimalChallengeRFC6287(fmt.Sprint(c)); err != nil || len(b) != 128 {
+						fail("ParseDecimalChallengeRFC6287 wrong under concurrency")
+					}
+					if hx, err := otp.HexInputToOCRA("0000000000000001", "3132333435363738", "", "", ""); err != nil || len(hx.Counter) != 8 {
+						fail("HexInputToOCRA wrong under concurrency")
+					}
+					calls.Add(17)
 					if i%64 == 63 {
 						for k := range kept {
 							if kept[k] != clones[k] {
